@@ -24,7 +24,8 @@ RULE = ("one child process per layout of driver libraries next to a copy of the 
         "Ok result is an enumerated identifier of the requested kind, no crash; exact-size heap copies so over-reads are "
         "ASan reports); (iv) every DeviceKind value and out-of-range integers, NULL/zero-length combinations, select_first/"
         "select_default, indices 0..count+3 and UINT32_MAX; opening every enumerated camera/storage identifier must give "
-        "the enumerated kind and name. Non-trivial = select input that matched a device or hit a metacharacter/duplicate "
+        "the enumerated kind and name; (v) one select in five is issued again right away and must give the same answer "
+        "(selection is a function of kind and pattern on a fixed device set). Non-trivial = select input that matched a device or hit a metacharacter/duplicate "
         "name; distinct by (layout, input).")
 
 SPECIAL = set("^$\\.*+?()[]{}|")
@@ -175,6 +176,10 @@ def gen_commands(rng, enum_names_by_kind, count, n_inputs):
         else:
             idx = rng.choice([count, count + 1, count + 3, 0xFFFFFFFF, rng.randint(0, max(0, count - 1))])
             cmds.append(("G %d" % idx, {"class": "index", "index": idx}))
+        # selection is a function of (kind, pattern) on a fixed set of devices: the same call again, right away,
+        # must give the same answer (whatever the pattern is, well-formed or not)
+        if cmds and cmds[-1][0][0] == "S" and cmds[-1][1]["class"] != "repeat" and rng.random() < 0.2:
+            cmds.append((cmds[-1][0], {"class": "repeat", "kind": cmds[-1][1]["kind"]}))
     return cmds
 
 
@@ -246,7 +251,8 @@ def run(prop, tier, replay=None):
             if e:
                 by_kind.setdefault(e["kind"], []).append(e["name"])
         if fixed_cmds is not None:
-            cmds = [(c, {"class": "replay"}) for c in fixed_cmds]
+            cmds = [(c, {"class": "repeat" if i and c[0] == "S" and fixed_cmds[i - 1] == c else "replay", "kind": 0})
+                    for i, c in enumerate(fixed_cmds)]
         else:
             cmds = gen_commands(rng, by_kind, count, n_inputs)
             cmds += [("O %d" % i, {"class": "open", "index": i}) for i in range(count)]
@@ -295,6 +301,15 @@ def run(prop, tier, replay=None):
                                   _rep(job, [cmd]))
                 if exp is not None:
                     nontrivial.add((job["tag"], cmd))
+            elif cls == "repeat":
+                prev = results.get(n - 1)
+                pgot = None
+                if prev is not None and prev.get("status") == 0 and "kind" in prev:
+                    pgot = (prev["driver_id"], prev["device_id"], prev["kind"], bytes.fromhex(prev["name_hex"]).decode("latin-1"))
+                if prev is not None and (prev.get("status") != r.get("status") or pgot != got):
+                    chk.violation("select-not-repeatable", "the same select (%s) issued twice in a row: first status %s %r, then status %s %r"
+                                  % (cmd[:80], prev.get("status"), pgot, r.get("status"), got), _rep(job, [c for c, _ in cmds[max(0, n - 50):n]]))
+                nontrivial.add((job["tag"], "repeat", cmd))
             elif cls == "nulpad":
                 exp = expected_select(enum, meta["kind"], meta.get("re"), meta.get("pat") == "")
                 expt = (exp["driver_id"], exp["device_id"], exp["kind"], exp["name"]) if exp else None
@@ -356,6 +371,12 @@ def run(prop, tier, replay=None):
     chk.assumptions = ["patterns of class (i) stay inside a grammar on which ECMAScript and python regex semantics agree "
                        "(no back-references, look-around, POSIX classes, case-crossing ranges, nested quantified groups)",
                        "a device whose describe() fails is 'not enumerated' (device_manager_get reports an error for it)"]
+    if replay:
+        if chk.violations:
+            print("VIOLATION property=C12 replay=%s" % replay)
+            return 1
+        print("replay: no violation reproduced")
+        return 0
     if not classes.get("grammar"):
         chk.fail("no grammar inputs were generated")
     return chk.finish(evaluations, len(nontrivial), RULE)
